@@ -752,6 +752,8 @@ func (x *Exec) proveClause(st *State, env *Env, c Clause, kind, site string) {
 	henv.post = false
 	var hside []string
 	henv.side = &hside
+	nassert := 0
+	henv.hint = &hintCtx{st: st, site: site, n: &nassert}
 	hy := x.byHints(&henv, c.By)
 	parts := x.w.expandGoal(c.E, 0)
 	if c.Split != nil {
